@@ -5,6 +5,7 @@ package main
 import (
 	"encoding/json"
 	"fmt"
+	"math"
 	"math/rand"
 	"os"
 	"strconv"
@@ -196,6 +197,87 @@ func run5(n int, x float64) int64 {
 	return int64(p(x) * (1 << 24))
 }
 
+// the same switch for any value type T
+func buildG[T any](n int, f func(int64) func(T) T) func(T) T {
+	switch n {
+	case 2:
+		return pipe.Pipe(f(1), f(2))
+	case 3:
+		return pipe.Pipe3(f(1), f(2), f(3))
+	case 4:
+		return pipe.Pipe4(f(1), f(2), f(3), f(4))
+	case 5:
+		return pipe.Pipe5(f(1), f(2), f(3), f(4), f(5))
+	case 6:
+		return pipe.Pipe6(f(1), f(2), f(3), f(4), f(5), f(6))
+	case 7:
+		return pipe.Pipe7(f(1), f(2), f(3), f(4), f(5), f(6), f(7))
+	case 8:
+		return pipe.Pipe8(f(1), f(2), f(3), f(4), f(5), f(6), f(7), f(8))
+	case 9:
+		return pipe.Pipe9(f(1), f(2), f(3), f(4), f(5), f(6), f(7), f(8), f(9))
+	case 10:
+		return pipe.Pipe10(f(1), f(2), f(3), f(4), f(5), f(6), f(7), f(8), f(9), f(10))
+	case 11:
+		return pipe.Pipe11(f(1), f(2), f(3), f(4), f(5), f(6), f(7), f(8), f(9), f(10), f(11))
+	case 12:
+		return pipe.Pipe12(f(1), f(2), f(3), f(4), f(5), f(6), f(7), f(8), f(9), f(10), f(11), f(12))
+	case 13:
+		return pipe.Pipe13(f(1), f(2), f(3), f(4), f(5), f(6), f(7), f(8), f(9), f(10), f(11), f(12), f(13))
+	case 14:
+		return pipe.Pipe14(f(1), f(2), f(3), f(4), f(5), f(6), f(7), f(8), f(9), f(10), f(11), f(12), f(13), f(14))
+	case 15:
+		return pipe.Pipe15(f(1), f(2), f(3), f(4), f(5), f(6), f(7), f(8), f(9), f(10), f(11), f(12), f(13), f(14), f(15))
+	case 16:
+		return pipe.Pipe16(f(1), f(2), f(3), f(4), f(5), f(6), f(7), f(8), f(9), f(10), f(11), f(12), f(13), f(14), f(15), f(16))
+	case 17:
+		return pipe.Pipe17(f(1), f(2), f(3), f(4), f(5), f(6), f(7), f(8), f(9), f(10), f(11), f(12), f(13), f(14), f(15), f(16), f(17))
+	case 18:
+		return pipe.Pipe18(f(1), f(2), f(3), f(4), f(5), f(6), f(7), f(8), f(9), f(10), f(11), f(12), f(13), f(14), f(15), f(16), f(17), f(18))
+	case 19:
+		return pipe.Pipe19(f(1), f(2), f(3), f(4), f(5), f(6), f(7), f(8), f(9), f(10), f(11), f(12), f(13), f(14), f(15), f(16), f(17), f(18), f(19))
+	case 20:
+		return pipe.Pipe20(f(1), f(2), f(3), f(4), f(5), f(6), f(7), f(8), f(9), f(10), f(11), f(12), f(13), f(14), f(15), f(16), f(17), f(18), f(19), f(20))
+	}
+	panic("arity")
+}
+
+// family 6: ONE pipeline value called twice with the SAME scalar argument; its stages read a setting that changes
+// between the calls (v -> 3v + i*setting) and count their applications: every call applies every stage once, whatever
+// was computed before
+func run6(n int, x int64) []int64 {
+	setting, calls := int64(1), int64(0)
+	p := buildG(n, func(i int64) func(int64) int64 {
+		return func(v int64) int64 { calls++; return 3*v + i*setting }
+	})
+	r1 := p(x)
+	setting = 2
+	r2 := p(x)
+	return []int64{r1, r2, calls}
+}
+
+// family 7: one float64 pipeline called on +0 and on -0 (== holds between them, they are different arguments): stage 1
+// yields -1 or +1 by the sign bit, the others are those of family 5; results times 2^24, in the order of the calls
+func run7(n int, negFirst bool) []int64 {
+	p := buildG(n, func(i int64) func(float64) float64 {
+		if i == 1 {
+			return func(v float64) float64 {
+				if math.Signbit(v) {
+					return -1
+				}
+				return 1
+			}
+		}
+		return func(v float64) float64 { return v/2 + float64(i) }
+	})
+	pos, neg := 0.0, math.Copysign(0, -1)
+	a, b := pos, neg
+	if negFirst {
+		a, b = neg, pos
+	}
+	return []int64{int64(p(a) * (1 << 24)), int64(p(b) * (1 << 24))}
+}
+
 func run2(n int, l []int64) []int64 { return build2(n, f2)(l) }
 
 // family 4: stage (n+1)/2, when reached in the outermost call, calls the very pipeline it belongs to on another
@@ -278,7 +360,7 @@ func main() {
 	enc := json.NewEncoder(os.Stdout)
 	for n := 2; n <= 20; n++ {
 		for k := 0; k < per; k++ {
-			for fam := 0; fam <= 5; fam++ {
+			for fam := 0; fam <= 7; fam++ {
 				c := Case{Arity: n, Fam: fam}
 				switch fam {
 				case 0:
@@ -315,6 +397,16 @@ func main() {
 					q := rng.Int63n(512) - 256
 					c.Input = []int64{q}
 					c.Observed = []int64{run5(n, float64(q)/4)}
+				case 6:
+					x := rng.Int63n(1<<21) - 1<<20
+					if k == 0 {
+						x = 0
+					}
+					c.Input = []int64{x}
+					c.Observed = run6(n, x)
+				case 7:
+					c.Input = []int64{int64(k % 2)}
+					c.Observed = run7(n, k%2 == 1)
 				case 4:
 					l := []int64{}
 					for j := 0; j < k%3; j++ {
